@@ -19,6 +19,7 @@ use std::panic;
 use util::*;
 
 fn dispatch(req: &Req) -> R<String> {
+	mockutil::PATH.with(|p| *p.borrow_mut() = req.opt("path").unwrap_or("").to_string());
 	match req.kind {
 		"word" => word::word(req),
 		"uint" => distr::uint(req),
